@@ -84,6 +84,14 @@ func aDepositDenom(t string, dseq uint64, amt int64, dn string) Action {
 		}}
 }
 
+// aCreateBidRaw lets the alphabet spell the provider address and the price coin freely (upper-case bech32, foreign denomination).
+func aCreateBidRaw(name string, b bidRef, providerSpelling func(c *Cast) string, price sdk.Coin, deposit int64) Action {
+	return Action{Name: name, Kind: "CreateBid", Signer: b.P, Tag: b.tags(),
+		Msg: func(c *Cast) sdk.Msg {
+			return &mtypes.MsgCreateBid{Order: b.id(c).OrderID(), Provider: providerSpelling(c), Price: price, Deposit: coin(deposit)}
+		}}
+}
+
 func aCreateBidDenom(b bidRef, price, deposit int64, dn string) Action {
 	return Action{Name: fmt.Sprintf("CreateBid(%s,price=%d,dep=%d%s)", b, price, deposit, dn), Kind: "CreateBid", Signer: b.P, Tag: b.tags(),
 		Msg: func(c *Cast) sdk.Msg {
@@ -243,6 +251,8 @@ func scEscrow() Scenario {
 		aSendToEscrow("B", 1),
 		aDepositDenom("T1", 1, 3, denom2), aCreateBidDenom(bidRef{"T1", 1, 2, 1, "P1"}, 2, 5, denom2),
 	)
+	// a bid above the order's maximum price (3), and what a tenant could do with it if it were admitted
+	al = append(al, bidOps(bidRef{"T1", 1, 2, 1, "P1"}, 4, false)...)
 	sc.Alphabet = al
 	return sc
 }
@@ -276,6 +286,7 @@ func scLife() Scenario {
 	al = append(al, bidOps(bidRef{"T1", 1, 2, 1, "P1"}, 3, false)...)
 	al = append(al, bidOps(bidRef{"T1", 1, 1, 2, "P2"}, 1, false)...)
 	al = append(al, bidOps(bidRef{"T2", 12, 1, 1, "P1"}, 2, false)...)
+	al = append(al, aCreateBid(bidRef{"T2", 12, 1, 1, "P2"}, 5, 5), aBidOp("CreateLease", bidRef{"T2", 12, 1, 1, "P2"})) // above the maximum (3)
 	al = append(al,
 		aCloseDeployment("T1", 1), aCloseDeployment("T2", 12),
 		aUpdateDeployment("T1", 1, "v2"),
@@ -295,6 +306,7 @@ var scenarioTable = map[string]func() Scenario{
 	"S-3bids":  sc3Bids,
 	"S-attr":   scAttr,
 	"S-attr-leased": scAttrLeased,
+	"S-attr-upper":  scAttrUpper,
 	"S-cert":   scCert(certSerials),
 	"S-collide": scCollide,
 	"S-grid":   scGrid,
